@@ -116,10 +116,12 @@ ENGINE_SHAPES = ["forloop", "tablerowloop", "block", "now", "today", "str", "int
 # shapes whose VALUE is itself a Python-internal object the host chose to expose: that object
 # reaching a filter / being stringified is not the subject (only what lies behind it is)
 # variants of a kind already swept in full: the quick tier thins their plain string/math filter sites
-SECONDARY_SHAPES = {"raiser_type", "raiser_index", "raiser_attr", "raiser_value", "typednt", "ntuplesub",
+SECONDARY_SHAPES = {"sized0", "sized1", "sizedmax", "sizedneg", "seqmax", "mapneg", "seqover", "raiser_type", "raiser_index", "raiser_attr", "raiser_value", "typednt", "ntuplesub",
                     "dc_frozen", "dc_slots", "userstring", "simplens", "dictget", "tuplesub", "userlist",
                     "time", "timedelta", "complex", "fraction", "frozenset", "mapobj", "iterator",
                     "ntplain", "dcplain_nospy", "simplens_nospy", "date"}
+LOOP_SITES = ("tag.for", "tag.tablerow", "tag.include_for", "tag.render_for", "path.special",
+              "path.then_special", "path.field_then", "out.range", "tag.macro", "tag.with")
 RELAXED_PY_SHAPES = {"generator", "iterator", "mapobj", "dictkeys"}
 
 WRAP = {
@@ -162,6 +164,7 @@ def site_visible(site: dict[str, Any]) -> set[str]:
     return v
 
 
+TRIPNUM_RE = re.compile(r"77\d{5}77")   # a tripwire property value
 CANARY_RE = re.compile(r"CNRY_([A-Za-z]+)_([A-Za-z0-9_]*)", re.IGNORECASE)
 TELLTALE_RE = re.compile(
     r"<bound method|<built-in method|<built-in function|<function |<class '|<module '| object at 0x"
@@ -202,6 +205,10 @@ class Scan:
             for m in CANARY_RE.finditer(s):
                 self.found.append({"kind": "canary", "holder": m.group(1).lower(), "token": m.group(0)[:80],
                                    "sink": sink})
+        if "7700" in s:
+            m = TRIPNUM_RE.search(s)
+            if m:
+                self.found.append({"kind": "canary", "holder": "tripwireproperty", "token": m.group(0), "sink": sink})
         if "<" in s or " at 0x" in s or "&lt;" in s or "(" in s:
             t = html.unescape(s) if "&" in s else s
             m = TELLTALE_RE.search(t)
@@ -642,7 +649,7 @@ class Runner:
             elif b["kind"] == "called":
                 key = b["key"]
                 what = (f"engine code ({b['caller']}) called the non-protocol Python method {b['callable']}() of a context object"
-                        if b["callable"].startswith("dict.") else
+                        if b["callable"].startswith(("dict.", "async.")) else
                         f"engine code ({b['caller']}) CALLED a callable item ({b['callable']}) that the data only exposed as a value")
             elif b["kind"] == "canary":
                 key = f"canary:{b['holder']}->{b['sink'].split(':')[0]}@{_site_family(site['id'])}"
@@ -762,6 +769,10 @@ def run_shard(spec: dict[str, Any], ctx: Ctx) -> None:
                 combos = [("async", rng.random() < 0.35)]
             if shape in ("html", "markup") and not generic:
                 combos = [("sync", True), ("async", False)]
+            if site["id"].startswith(LOOP_SITES) or "size" in site["src"]:
+                # iteration / length positions: the sync and async twins are separate code
+                ae_ = combos[0][1]
+                combos = [("sync", ae_), ("async", ae_)]
         else:
             combos = [("sync", False), ("async", False), ("sync", True), ("async", True)]
             if generic and not keyf:
